@@ -8,6 +8,7 @@ SPEC = {
     "translators": [c02_sites.run],
     "trusted": [
         "C02: coq/C02/Model.v is a hand transliteration, branch by branch, of write_code / if_helper / goto_helper / switch_helper / align_to_4_byte_boundary and the patch loop (duke/src/simple_class_writer.rs), Labels (simple_class_writer/labels.rs), PoolWrite::put and put_bootstrap_method (simple_class_writer/pool.rs), write_attribute / write_usize_as_uN (lib.rs), at the layout level: an instruction without label operand enters as the bytes duke emits for it",
+        "C02: coq/C02/Frames.v: hand transliteration of the StackMapTable part of write_code and of write_verification_type_info (emit side), and a byte-only decoder transcribed from class_reader.rs read_stack_map_frame / read_verification_type_info and the reader's offset loop (decode side); VerificationTypeInfo::Object(class) enters the layout-level model as the pool index of the class in the written file (looked up by the harness in the written pool; the pool theorems say it is unique)",
         "C02: coq/C02/Encode.v is the specification side of write_is_encode / targets_preserved: the general position-dependent encoder (per instruction a choice narrow/wide, padding forced by position, offsets computed from the induced layout) and a decoder of branch/switch operands that looks only at bytes (JVMS 6.5 opcode classes and opposite conditions transcribed by hand)",
         "C02: translate/c02_sites.py regenerates coq/C02/Gen.v from the source on every run (every write_attribute_fix_length call site with the writes that follow it, every if_helper / goto_helper call site with its opcode constants, the trampoline literals) and fails closed on any call shape it does not recognise",
         "C02: the harness' abstraction of a duke tree to the layout level (harness/src/bin/c02/main.rs: branch_of, tables_of; the bytes of non-branching instructions are read from a probe write of the same tree in which label-carrying instructions are nops, so that ldc/ldc_w follow the real pool) and its contraction of inverted-condition trampolines before facts are compared",
@@ -17,11 +18,11 @@ SPEC = {
         "trees come from duke::read_class (possibly renamed): every label sits on at most one instruction and the last label on none (unique_labels) — checked by the harness on every tree it reads (counter hypothesis_unique_labels_violated_by_reader stays 0)",
         "tableswitch: high - low + 1 fits i32 (spans_ok); otherwise the writer's own i32 arithmetic overflows before it compares with the table length — the reader cannot produce such a tree",
         "local-variable and type-annotation ranges have their start label not after their end label (ranges_ok); otherwise `end - start` on u16 overflows in Labels::try_get_range — the reader builds ranges as (start_pc, start_pc + length)",
+        "frames_ok: the tags of the simple verification types are < 7 and Object pool indices are u16 (by construction of the harness' abstraction); one optional frame per instruction",
         "low/high/keys of switches are i32 values and instruction bytes are < 256 (body_ok) for targets_preserved",
         "Rust's HashMap/HashSet behave as finite maps/sets (wide: list with membership, labels: association list where the most recent binding wins, pool map: association list)",
     ],
     "stated_not_proved": [
-        "frames_written_full (coq/C02/Theory8.v): forall fs pos, written_frames fs pos = tree_frames fs pos -- FALSE today (known finding F14: `// TODO: write stack map table`); proved instead: C02_frames_written_partial (methods without frames) and C02_frames_written_refuted (the witness)",
         "write_fails_cleanly characterises Err at the wide set the loop ends with (exists W with attempt W = AErr and cause W); a closed form of that final W in terms of the body alone is not stated (the layout is not monotone in W because switch padding can shrink)",
         "expand W body as a body with explicit `inv`/`goto_w` instruction pairs and fresh labels is not defined; instead the wide form of a conditional is an 8-byte encoding of the same instruction and C02_targets_preserved shows that the byte decoder sees the inverted condition jumping to the next instruction followed by a goto_w to the target (index embedding = positions)",
         "the class skeleton (magic, version, this/super/interfaces, member headers), the byte layouts of annotations, element values, type annotations and type paths, module, record components, inner classes, method parameters, and which pool-put each of them uses are not modelled in Coq: they are covered by the oracle (strict parser accepts the output; facts of the output = facts of the tree) on generated classes and the corpus only",
